@@ -519,12 +519,16 @@ int main(int argc, char** argv) {
             if (back) polyseed_free(back);
             /* crypt */
             for (int i = 0; i < 32; ++i) d_mask[i] = (uint8_t)RND();
-            polyseed_data c = s; polyseed_crypt(&c, "password");
+            static const char* const pws[] = { "password", "ol\xc3\xa9", "pw\n", "\xe3\x81\x82\xe3\x81\x84", "", "tab\t", "\xcc\x81" };
+            const char* pw = pws[it % (sizeof pws / sizeof *pws)];
+            polyseed_data c = s; polyseed_crypt(&c, pw);
+            if (d_kdf_pwlen != strlen(pw) || memcmp(d_kdf_pw, pw, strlen(pw)) || d_kdf_saltlen != 16 || d_kdf_iter != 10000 || d_kdf_keylen != 32)
+                BFAIL("crypt: the key-derivation password is not the normalised password byte for byte without terminator (or salt length / iterations / key length differ)");
             int okc = c.features == (s.features ^ 16u) && c.birthday == s.birthday && c.checksum == spec_check(&c) && c.secret[18] == (uint8_t)((s.secret[18] ^ d_mask[18]) & 0x3f);
             for (int i = 0; i < 18; ++i) okc = okc && c.secret[i] == (uint8_t)(s.secret[i] ^ d_mask[i]);
             for (int i = 19; i < 32; ++i) okc = okc && c.secret[i] == 0;
             if (!okc) { BFAIL("crypt: result is not the masked seed with the flag toggled and the check value recomputed"); continue; }
-            polyseed_crypt(&c, "password");
+            polyseed_crypt(&c, pw);
             if (memcmp(&c, &s, sizeof s)) BFAIL("crypt twice with the same mask does not restore the seed");
             if (d_live != 0 || d_foreign_free) { BFAIL("allocator ledger: block leaked or foreign/double free"); d_live = 0; d_foreign_free = 0; }
             /* failure paths: wrong coin, reserved feature bits, failing allocator -- status and allocator ledger */
